@@ -11,6 +11,8 @@
                    3 = HandleAfterLocation: cluster name + cluster conf looked up; 4 = HandleForward: balancer looked up and
                    backend chosen; 0 = run to completion)               -> view
      [4 rid hp]   let the held request rid continue to hold point hp (greater than its current one, or 0 = completion) -> view
+     [8 g]        GslbDataConfReload from a directory whose gslb.data is broken (BalTableConfLoad fails: nothing is
+                  touched; later requests still get generation-unchanged backends)     -> [1]
      [7]          one more request on the case's PERSISTENT keep-alive client connection (opened at first use), run to
                   completion: every request takes its own snapshot, also on a connection accepted under an older one -> view
      [5 seed nreq nrel vf gf]  concurrent burst: 4 client goroutines x nreq requests, while nrel server-data reloads cycle
@@ -32,7 +34,7 @@ Definition NG : Z := 2.
 
 Inductive hop :=
 | HReload (v : Z) | HBadReload (v : Z) | HGslb (g : Z)
-| HStart (rid : nat) (hp : Z) | HCont (rid : nat) (hp : Z) | HKeep
+| HStart (rid : nat) (hp : Z) | HCont (rid : nat) (hp : Z) | HKeep | HBadGslb (g : Z)
 | HBurst (seed nreq nrel vf gf : Z).
 
 Definition in_range (lo hi x : Z) : bool := (lo <=? x) && (x <=? hi).
@@ -45,6 +47,7 @@ Definition decode_op (v : val) : option hop :=
   | VL [VZ 3; VZ rid; VZ hp] => if in_range 0 2 rid && in_range 0 4 hp then Some (HStart (Z.to_nat rid) hp) else None
   | VL [VZ 4; VZ rid; VZ hp] => if in_range 0 2 rid && in_range 0 4 hp then Some (HCont (Z.to_nat rid) hp) else None
   | VL [VZ 7] => Some HKeep
+  | VL [VZ 8; VZ g] => if in_range 1 NG g then Some (HBadGslb g) else None
   | VL [VZ 5; VZ seed; VZ nreq; VZ nrel; VZ vf; VZ gf] =>
     if in_range 0 1000000 seed && in_range 1 6 nreq && in_range 0 3 nrel && in_range 1 NV vf && in_range 1 NG gf
     then Some (HBurst seed nreq nrel vf gf) else None
@@ -161,6 +164,10 @@ Definition exec_op (h : hstate) (o : hop) : option (hstate * val) :=
     | Some q => if negb (Nat.eqb (rq_pc q) 6) then None else Some (mkH st' (h_slot h) (h_hp h), view_of q)
     | None => None
     end
+  | HBadGslb g =>
+    (* BalTableConfLoad fails and gslbDataConfReload returns: a gslb-reload thread that ends right after its load step *)
+    let '(st, i) := add_thread (h_st h) (TGslb (mkGReload g 8 0)) in
+    Some (mkH st (h_slot h) (h_hp h), VL [VZ 1])
   | HBurst seed nreq nrel vf gf =>
     let '(st', ok) := burst (h_st h) seed nreq nrel vf gf in
     Some (mkH st' (h_slot h) (h_hp h), VL [vbool ok])
@@ -238,6 +245,7 @@ Definition prop_op (p : pstate) (o : hop) (v : val) : option pstate :=
                 else None
     end
   | HKeep => match check_view (p_cur p) (p_gen p) 0 0 v with Some _ => Some p | None => None end
+  | HBadGslb _ => if val_eqb v (VL [VZ 1]) then Some p else None
   | HBurst _ _ _ vf gf => if val_eqb v (VL [VZ 1]) then Some (mkP vf gf (p_exp p) (p_g p) (p_php p)) else None
   end.
 
